@@ -661,9 +661,44 @@ func (m *mergeCtx) ps5MergeOrder() {
 			}
 		}
 	}
+	// liftM: the instruction of mkFn through which `in` is reached (itself, or the unique call site of its helper)
+	liftM := func(in ssa.Instruction) ssa.Instruction {
+		if in == nil || in.Parent() == mkFn {
+			return in
+		}
+		sites := m.staticCallers(in.Parent())
+		if len(sites) == 1 && sites[0].Parent() == mkFn {
+			return sites[0]
+		}
+		return nil
+	}
 	cleaned := false
 	if mk != nil {
 		dir := mk.(ssa.CallInstruction).Common().Args[0]
+		// the leftover removal may live in a helper that is handed the directory (`removeStaleMergeDir(mergePath)`), called
+		// before the (re)creation
+		for _, fn := range scope {
+			if fn == mkFn {
+				continue
+			}
+			for _, b := range fn.Blocks {
+				for _, in := range b.Instrs {
+					if !calleeIs(in, "os.RemoveAll") {
+						continue
+					}
+					site := liftM(in)
+					if site == nil || !dominatesInstr(site, mk) {
+						continue
+					}
+					if pi := paramIndex(fn, in.(ssa.CallInstruction).Common().Args[0]); pi >= 0 {
+						args := site.(ssa.CallInstruction).Common().Args
+						if pi < len(args) && sameOrigin(args[pi], dir) {
+							cleaned = true
+						}
+					}
+				}
+			}
+		}
 		for _, b := range mkFn.Blocks {
 			for _, in := range b.Instrs {
 				if calleeIs(in, "os.RemoveAll") && sameOrigin(in.(ssa.CallInstruction).Common().Args[0], dir) {
@@ -706,7 +741,8 @@ func (m *mergeCtx) ps5MergeOrder() {
 				if !calleeIs(in, "os.Remove", "os.RemoveAll") {
 					continue
 				}
-				if mk == nil || fn != mkFn || !(dominatesInstr(in, mk) || reachesAvoiding(in, mk, nil)) || reachesAvoiding(mk, in, nil) {
+				lin := liftM(in)
+				if mk == nil || lin == nil || lin == mk || !(dominatesInstr(lin, mk) || reachesAvoiding(lin, mk, nil)) || reachesAvoiding(mk, lin, nil) {
 					lateRemovals = append(lateRemovals, core.CalleeName(in.(ssa.CallInstruction).Common())+" at "+m.p.InstrPos(in))
 					continue
 				}
